@@ -379,6 +379,9 @@ void h_skip_sfx_bounded(void)
 	__CPROVER_havoc_object(vg_bsrc);
 	__CPROVER_havoc_object(&vg_st);
 	vg_bn = nondet_size_t();
+#ifdef VG_BN_FIXED
+	vg_bn = VG_BN;      /* source of exactly VG_BN bytes */
+#endif
 	__CPROVER_assume(vg_bn <= VG_BN);
 	vg_bcur = 0;
 	vg_bchunk = nondet_size_t();
